@@ -33,6 +33,21 @@ def job(j: dict) -> dict:
     root = Path(j["root"])
     root.mkdir(parents=True)
     (root / ".git").mkdir()
+    if j["fileKind"] == "lone":
+        # one file per literal: a single function, the literal in a special spelling, no other digit in the text,
+        # default configuration
+        counts, bad = {}, []
+        for vid in (11, 12, 13):
+            fname = "lone_" + "abc"[vid - 11] + "." + R.EXT[j["lang"]]
+            (root / fname).write_text(R.LONE[j["lang"]].format(s=R.SPELL[vid]))
+            r = drive.cli_json(["magic-numbers", fname], cwd=root)
+            if r["violations"] is None:
+                return {"error": f"no JSON (exit {r['exit']}): {r['stderr'][-300:]}"}
+            for v in r["violations"]:
+                if v["line"] == 2:
+                    counts[("returnExpr", vid)] = counts.get(("returnExpr", vid), 0) + 1
+        return {"observed": [{"slot": s_, "v": v_, "n": n} for (s_, v_), n in sorted(counts.items())],
+                "stray": [], "bad": bad, "exit": 0}
     src, where, nonlit = R.render(j["lang"], [tuple(i) for i in j["items"]])
     C01.selfcheck(j["lang"], src)
     name = {"plain": "probe", "test": "test_probe", "definition": "app_constants"}[j["fileKind"]]
@@ -169,6 +184,8 @@ def run(chk) -> None:
                  and (s not in one or v == 2) and (s not in ("classUpperConst", "localUpperConst") or v in (2, 3, 4, 9))]
              for l, ss in slots.items()}
     for c in cases:   # cross-check the mirror against TLC: every expected item must be in the mirrored universe
+        if c["fileKind"] == "lone":
+            continue
         for e in c["expected"]:
             if (e["slot"], e["v"]) not in items[c["lang"]]:
                 raise MachineryError(f"C02: item universe mirror out of sync with MagicNumbers.tla: {e}")
